@@ -1,0 +1,138 @@
+//! Read-only observation hooks for external verification harnesses.
+//!
+//! This module only exists when the crate is compiled with `--cfg rubato_verif`.
+//! Nothing in here changes a value, a branch or an allocation of the normal build.
+
+use std::cell::RefCell;
+
+/// A snapshot of the internal state of a resampler.
+#[derive(Debug, Clone, PartialEq, Eq)]
+pub struct State {
+    /// Short name of the resampler type.
+    pub kind: &'static str,
+    /// All scalar control fields, floats as their bit patterns.
+    pub scalars: Vec<(&'static str, u64)>,
+    /// The stored channel mask.
+    pub mask: Vec<bool>,
+    /// Hash of all sample storage that carries information between calls.
+    pub data_hash: u64,
+    /// Number of samples covered by `data_hash`.
+    pub data_len: usize,
+    /// Lengths of the per-channel sample buffers covered by `data_hash`.
+    pub data_shape: Vec<usize>,
+    /// Hash of pure scratch storage (fully overwritten before it is read).
+    pub scratch_hash: u64,
+}
+
+/// FNV-1a over raw bytes.
+pub struct Hasher(pub u64);
+
+impl Default for Hasher {
+    fn default() -> Self {
+        Hasher(0xcbf2_9ce4_8422_2325)
+    }
+}
+
+impl Hasher {
+    pub fn bytes(&mut self, bytes: &[u8]) {
+        for b in bytes {
+            self.0 ^= *b as u64;
+            self.0 = self.0.wrapping_mul(0x0000_0100_0000_01b3);
+        }
+    }
+
+    pub fn word(&mut self, value: u64) {
+        self.bytes(&value.to_le_bytes());
+    }
+
+    /// Hash a slice of plain-old-data values (f32, f64, Complex of these).
+    pub fn pod<U: Copy>(&mut self, values: &[U]) {
+        self.word(values.len() as u64);
+        let bytes = unsafe {
+            std::slice::from_raw_parts(values.as_ptr() as *const u8, std::mem::size_of_val(values))
+        };
+        self.bytes(bytes);
+    }
+}
+
+/// Hash a set of per-channel buffers, returning (hash, total length, shape).
+pub fn hash_channels<U: Copy>(sets: &[&Vec<Vec<U>>]) -> (u64, usize, Vec<usize>) {
+    let mut hasher = Hasher::default();
+    let mut total = 0;
+    let mut shape = Vec::new();
+    for set in sets {
+        hasher.word(set.len() as u64);
+        for chan in set.iter() {
+            hasher.pod(chan);
+            total += chan.len();
+            shape.push(chan.len());
+        }
+    }
+    (hasher.0, total, shape)
+}
+
+/// Accesses made through unchecked indexing during the current call, per thread.
+#[derive(Debug, Clone, Copy, PartialEq, Eq)]
+pub struct WindowStats {
+    /// Number of windows recorded.
+    pub count: usize,
+    /// Lowest buffer index read.
+    pub min_read: isize,
+    /// Highest buffer index read (inclusive).
+    pub max_read: isize,
+    /// Highest output index written (inclusive).
+    pub max_write: isize,
+}
+
+impl WindowStats {
+    pub const EMPTY: WindowStats = WindowStats {
+        count: 0,
+        min_read: isize::MAX,
+        max_read: isize::MIN,
+        max_write: -1,
+    };
+}
+
+thread_local! {
+    static WINDOW_STATS: RefCell<WindowStats> = const { RefCell::new(WindowStats::EMPTY) };
+}
+
+/// Return and clear the statistics collected on this thread.
+pub fn take_window_stats() -> WindowStats {
+    WINDOW_STATS.with(|w| w.replace(WindowStats::EMPTY))
+}
+
+/// Record one unchecked window access and panic (unwinding) if it is out of bounds,
+/// before the unchecked access itself is executed.
+#[inline]
+pub fn window(
+    site: u32,
+    buf_len: usize,
+    first_index: isize,
+    width: usize,
+    out_len: usize,
+    out_index: usize,
+) {
+    WINDOW_STATS.with(|w| {
+        let mut w = w.borrow_mut();
+        w.count += 1;
+        w.min_read = w.min_read.min(first_index);
+        w.max_read = w.max_read.max(first_index + width as isize - 1);
+        w.max_write = w.max_write.max(out_index as isize);
+    });
+    if first_index < 0 || first_index as usize + width > buf_len {
+        panic!(
+            "rubato_verif: unchecked read window [{}, {}) outside buffer of length {} at line {}",
+            first_index,
+            first_index + width as isize,
+            buf_len,
+            site
+        );
+    }
+    if out_index >= out_len {
+        panic!(
+            "rubato_verif: unchecked write at index {} outside output of length {} at line {}",
+            out_index, out_len, site
+        );
+    }
+}
